@@ -68,6 +68,29 @@ func (in *Interp) intrinsic(fn *ssa.Function, args []Value) (Value, bool) {
 		// func zzSymLenX(n int) []T : a slice of symbolic length n that must never be indexed
 		n := args[0].(*smt.Term)
 		return &SliceVal{SymLen: n}, true
+	case name == "zzDeepEqual":
+		// zzDeepEqual(tag, a, b interface{}, exclude string): structural equality generated from the
+		// dynamic type of a (struct fields named in the comma-separated exclude list are skipped)
+		tag, _ := in.cStr(args[0])
+		ia, ok1 := args[1].(*IfaceVal)
+		ib, ok2 := args[2].(*IfaceVal)
+		ex, _ := in.cStr(args[3])
+		if !ok1 || !ok2 || ia.T == nil || ib.T == nil {
+			panic(in.unsupported("zzDeepEqual on nil or non-interface values"))
+		}
+		excl := map[string]bool{}
+		for _, f := range strings.Split(ex, ",") {
+			if f != "" {
+				excl[f] = true
+			}
+		}
+		var notes []string
+		c := in.DeepEqual(ia.T, ia.V, ib.V, excl, "", &notes)
+		for _, n := range notes {
+			in.Stats.Stubs["deepequal-note:"+n]++
+		}
+		in.AddObligation(&Obligation{Kind: "assert", Tag: tag, Pos: in.posStr(in.curPos), Guard: in.Guard(), Cond: c})
+		return &TupleVal{}, true
 	case name == "zzHavocHidden":
 		tag, _ := in.cStr(args[1])
 		return in.havocHidden(args[0], tag), true
@@ -150,6 +173,7 @@ func zzHavocHidden(root interface{}, tag string) int { panic("zz") }
 func zzSnapshotHidden(root interface{}) []uint64     { panic("zz") }
 func zzRestoreHidden(root interface{}, vals []uint64) { panic("zz") }
 func zzSchedule(reverse bool)          { panic("zz") }
+func zzDeepEqual(tag string, a, b interface{}, exclude string) { panic("zz") }
 `
 
 // Verdict of one obligation.
